@@ -79,16 +79,186 @@ theorem walkFrom_unfold (ss : List Node) (n : Node) :
   | enumItem e => simp [walkFrom, walkEnumItem, children, walkAnns_eq]
   | field f =>
     cases hf : f.dflt <;>
-      simp [walkFrom, walkField, children, walkAnns_eq, walkOptConst, optToList, hf, List.flatMap_append]
+      simp [walkFrom, walkField, children, walkAnns_eq, walkOptConst, optToList, hf]
   | function f =>
     cases hr : f.ret <;>
       simp [walkFrom, walkFunction, children, walkAnns_eq, walkFields_eq, walkOptTy, optToList, hr,
         List.flatMap_append]
   | ty t =>
-    cases t <;> simp [walkFrom, walkTy, children, walkAnns_eq, List.flatMap_append]
+    cases t <;> simp [walkFrom, walkTy, children, walkAnns_eq]
   | const c =>
     cases c <;> simp [walkFrom, walkConst, children, walkConsts_eq, walkItems_eq]
   | mapItem k v p => simp [walkFrom, children]
   | annotation a => simp [walkFrom, children]
+
+theorem parentOf_snoc (ss : List Node) (n : Node) : parentOf (ss ++ [n]) = some n := by
+  simp [parentOf]
+
+theorem length_le_flatMap {α β : Type} (f : α → List β) : ∀ (l : List α) (c : α), c ∈ l →
+    (f c).length ≤ (l.flatMap f).length := by
+  intro l
+  induction l with
+  | nil => intro c h; cases h
+  | cons a as ih =>
+    intro c h
+    simp only [List.flatMap_cons, List.length_append]
+    rcases List.mem_cons.1 h with h | h
+    · subst h; omega
+    · have := ih c h; omega
+
+/-- a visit whose announced parent really has the visited node as a child. -/
+def TrueParent (v : Visit) : Prop := ∃ q, v.2 = some q ∧ v.1 ∈ children q
+
+theorem walkFrom_parents : ∀ (k : Nat) (ss : List Node) (n : Node), (walkFrom ss n).length ≤ k →
+    ∀ v ∈ walkFrom ss n, v = (n, parentOf ss) ∨ TrueParent v := by
+  intro k
+  induction k with
+  | zero =>
+    intro ss n hk v hv
+    rw [walkFrom_unfold] at hk; simp at hk
+  | succ k ih =>
+    intro ss n hk v hv
+    rw [walkFrom_unfold] at hv hk
+    rcases List.mem_cons.1 hv with hv | hv
+    · exact Or.inl hv
+    · right
+      obtain ⟨c, hc, hvc⟩ := List.mem_flatMap.1 hv
+      have hlen := length_le_flatMap (walkFrom (ss ++ [n])) (children n) c hc
+      simp only [List.length_cons] at hk
+      rcases ih (ss ++ [n]) c (by omega) v hvc with h | h
+      · exact ⟨n, by rw [h, parentOf_snoc], by rw [h]; exact hc⟩
+      · exact h
+
+/-! ### every node exactly once: the number of visits is the number of nodes -/
+
+def sizeTy : Ty → Nat
+  | .base _ anns _ => 1 + anns.length
+  | .map k v anns _ => 1 + (sizeTy k + (sizeTy v + anns.length))
+  | .list v anns _ => 1 + (sizeTy v + anns.length)
+  | .set v anns _ => 1 + (sizeTy v + anns.length)
+  | .ref _ _ => 1
+
+mutual
+  def sizeConst : ConstValue → Nat
+    | .list items _ => 1 + sizeConsts items
+    | .map items _ => 1 + sizeItems items
+    | .int _ _ => 1 | .dbl _ _ => 1 | .bool _ _ => 1 | .str _ _ => 1 | .ref _ _ => 1
+  def sizeConsts : List ConstValue → Nat
+    | [] => 0
+    | c :: cs => sizeConst c + sizeConsts cs
+  def sizeItems : List (ConstValue × ConstValue × Pos) → Nat
+    | [] => 0
+    | (k, v, _) :: is => (1 + (sizeConst k + sizeConst v)) + sizeItems is
+end
+
+def sizeOptConst : Option ConstValue → Nat
+  | none => 0
+  | some c => sizeConst c
+
+def sizeOptTy : Option Ty → Nat
+  | none => 0
+  | some t => sizeTy t
+
+def sizeField (f : Field) : Nat := 1 + (sizeTy f.ty + (sizeOptConst f.dflt + f.anns.length))
+
+def sizeFields : List Field → Nat
+  | [] => 0
+  | f :: fs => sizeField f + sizeFields fs
+
+def sizeFunction (f : Function) : Nat :=
+  1 + (sizeOptTy f.ret + (sizeFields f.params + (sizeFields f.exceptions + f.anns.length)))
+
+def sizeFunctions : List Function → Nat
+  | [] => 0
+  | f :: fs => sizeFunction f + sizeFunctions fs
+
+def sizeEnumItems : List EnumItem → Nat
+  | [] => 0
+  | e :: es => (1 + e.anns.length) + sizeEnumItems es
+
+def sizeDef : Definition → Nat
+  | .const _ ty v _ _ => 1 + (sizeTy ty + sizeConst v)
+  | .typedef _ ty anns _ _ => 1 + (sizeTy ty + anns.length)
+  | .enum _ items anns _ _ => 1 + (sizeEnumItems items + anns.length)
+  | .struct _ _ fields anns _ _ => 1 + (sizeFields fields + anns.length)
+  | .service _ fns _ anns _ _ => 1 + (sizeFunctions fns + anns.length)
+
+def sizeDefs : List Definition → Nat
+  | [] => 0
+  | d :: ds => sizeDef d + sizeDefs ds
+
+/-- number of ast.Nodes of a program, read off the data type. -/
+def sizeProgram (p : Program) : Nat := 1 + (p.headers.length + sizeDefs p.defs)
+
+theorem walkAnns_length (ss : List Node) (as : List Annotation) : (walkAnns ss as).length = as.length := by
+  induction as with
+  | nil => rfl
+  | cons a as ih => simp [walkAnns, ih]
+
+theorem walkTy_length : ∀ (t : Ty) (ss : List Node), (walkTy ss t).length = sizeTy t
+  | .base _ anns _, ss => by simp [walkTy, sizeTy, walkAnns_length]; omega
+  | .map k v anns _, ss => by
+    simp [walkTy, sizeTy, walkAnns_length, walkTy_length k, walkTy_length v]; omega
+  | .list v anns _, ss => by simp [walkTy, sizeTy, walkAnns_length, walkTy_length v]; omega
+  | .set v anns _, ss => by simp [walkTy, sizeTy, walkAnns_length, walkTy_length v]; omega
+  | .ref _ _, ss => by simp [walkTy, sizeTy]
+
+mutual
+  theorem walkConst_length : ∀ (c : ConstValue) (ss : List Node), (walkConst ss c).length = sizeConst c
+    | .list items _, ss => by simp [walkConst, sizeConst, walkConsts_length items]; omega
+    | .map items _, ss => by simp [walkConst, sizeConst, walkItems_length items]; omega
+    | .int _ _, ss => by simp [walkConst, sizeConst]
+    | .dbl _ _, ss => by simp [walkConst, sizeConst]
+    | .bool _ _, ss => by simp [walkConst, sizeConst]
+    | .str _ _, ss => by simp [walkConst, sizeConst]
+    | .ref _ _, ss => by simp [walkConst, sizeConst]
+  theorem walkConsts_length : ∀ (cs : List ConstValue) (ss : List Node), (walkConsts ss cs).length = sizeConsts cs
+    | [], ss => by simp [walkConsts, sizeConsts]
+    | c :: cs, ss => by simp [walkConsts, sizeConsts, walkConst_length c, walkConsts_length cs]
+  theorem walkItems_length : ∀ (is : List (ConstValue × ConstValue × Pos)) (ss : List Node),
+      (walkItems ss is).length = sizeItems is
+    | [], ss => by simp [walkItems, sizeItems]
+    | (k, v, _) :: is, ss => by
+      simp [walkItems, sizeItems, walkConst_length k, walkConst_length v, walkItems_length is]; omega
+end
+
+theorem walkField_length (ss : List Node) (f : Field) : (walkField ss f).length = sizeField f := by
+  cases hd : f.dflt <;>
+    simp [walkField, sizeField, walkOptConst, sizeOptConst, hd, walkTy_length, walkConst_length, walkAnns_length] <;> omega
+
+theorem walkFields_length (ss : List Node) : ∀ fs : List Field, (walkFields ss fs).length = sizeFields fs
+  | [] => rfl
+  | f :: fs => by simp [walkFields, sizeFields, walkField_length, walkFields_length ss fs]
+
+theorem walkFunction_length (ss : List Node) (f : Function) : (walkFunction ss f).length = sizeFunction f := by
+  cases hr : f.ret <;>
+    simp [walkFunction, sizeFunction, walkOptTy, sizeOptTy, hr, walkTy_length, walkFields_length, walkAnns_length] <;> omega
+
+theorem walkFunctions_length (ss : List Node) : ∀ fs : List Function,
+    (walkFunctions ss fs).length = sizeFunctions fs
+  | [] => rfl
+  | f :: fs => by simp [walkFunctions, sizeFunctions, walkFunction_length, walkFunctions_length ss fs]
+
+theorem walkEnumItems_length (ss : List Node) : ∀ es : List EnumItem,
+    (walkEnumItems ss es).length = sizeEnumItems es
+  | [] => rfl
+  | e :: es => by
+    simp [walkEnumItems, walkEnumItem, sizeEnumItems, walkAnns_length, walkEnumItems_length ss es]; omega
+
+theorem walkDef_length (ss : List Node) (d : Definition) : (walkDef ss d).length = sizeDef d := by
+  cases d <;>
+    simp [walkDef, sizeDef, walkTy_length, walkConst_length, walkAnns_length, walkEnumItems_length,
+      walkFields_length, walkFunctions_length] <;> omega
+
+theorem walkDefs_length (ss : List Node) : ∀ ds : List Definition, (walkDefs ss ds).length = sizeDefs ds
+  | [] => rfl
+  | d :: ds => by simp [walkDefs, sizeDefs, walkDef_length, walkDefs_length ss ds]
+
+theorem walkHeaders_length (ss : List Node) : ∀ hs : List Header, (walkHeaders ss hs).length = hs.length
+  | [] => rfl
+  | h :: hs => by simp [walkHeaders, walkHeaders_length ss hs]
+
+theorem walkProgram_length (p : Program) : (walk (.program p)).length = sizeProgram p := by
+  simp [walk, walkFrom, walkProgram, sizeProgram, walkHeaders_length, walkDefs_length]; omega
 
 end ThriftVerif.Idl
